@@ -976,6 +976,16 @@ func (x *Exec) specCall(c *ast.CallExpr, env *SpecEnv) TV {
 		n := *env
 		n.st = env.loopEntry
 		return x.specValue(c.Args[0], &n)
+	case "atIter":
+		// the value at the head of the current iteration of the innermost loop under specification
+		for i := len(x.loops) - 1; i >= 0; i-- {
+			if x.loops[i].head != nil {
+				n := *env
+				n.st = x.loops[i].head
+				return x.specValue(c.Args[0], &n)
+			}
+		}
+		panic("spec: atIter() outside a loop under specification: " + exprStr(c))
 	case "__imp":
 		return TV{V: tImp(x.specTerm(c.Args[0], env), x.specTerm(c.Args[1], env)), T: boolT}
 	case "__iff":
